@@ -130,6 +130,7 @@ SDerived(d) ==
 SExpected(d) ==
     (IF d.endpoint = "upstream" /\ d.preserve THEN ClientTags("X-Vp-Ident", d.source, d.spoof) ELSE <<>>) \o SDerived(d)
 SInScope(d) ==
+    /\ (d.neighbour # "none" => d.kind \in {"plain", "none"} /\ ~d.preserve /\ d.endpoint = "upstream" /\ d.spelling = "canonical" /\ d.claim \in {"user", "unknown"})
     /\ (d.kind = "none" => d.claim = "user")
     /\ (d.endpoint = "authonly" => d.spoof \in {"absent", "canonical"} /\ ~d.preserve /\ d.source # "cookie_bypass")
     /\ (d.source \in {"basic"} => d.claim \in {"user", "email", "groups", "unknown"})
@@ -140,13 +141,17 @@ SInScope(d) ==
                           /\ d.claim \in {"user", "groups", "pu", "unknown"}
                           /\ d.kind \in {"plain", "basic", "two", "dup", "none"}
                           /\ (d.spoof \in {"canonical", "repeated"} => d.source \in {"cookie", "none_bypass"}))
-SMk(ep, sp, pr, k, cl, src, spoof) == [struct |-> TRUE, endpoint |-> ep, spelling |-> sp, preserve |-> pr, kind |-> k, claim |-> cl, source |-> src, spoof |-> spoof, store |-> "cookie"]
+\* neighbour: ANOTHER configured header (X-Vp-Other, preserveRequestValue on) stands before / after X-Vp-Ident in the list: what is decided for one
+\* configured name says nothing about the next one
+Neighbours == {"none", "preserved_before", "preserved_after"}
+SMk2(ep, sp, pr, k, cl, src, spoof, nb) == [struct |-> TRUE, endpoint |-> ep, spelling |-> sp, preserve |-> pr, kind |-> k, claim |-> cl, source |-> src, spoof |-> spoof, store |-> "cookie", neighbour |-> nb]
+SMk(ep, sp, pr, k, cl, src, spoof) == SMk2(ep, sp, pr, k, cl, src, spoof, "none")
 
 VARIABLE c
 Init == \/ \E ep \in {"upstream", "authonly"}, f \in Flags, src \in Sources, sp \in Spoofs, st \in {"cookie", "redis"} :
              c = Mk(ep, f, src, sp, st) /\ InScope(c)
-        \/ \E ep \in {"upstream", "authonly"}, sp \in Spellings, pr \in BOOLEAN, k \in SKinds, cl \in SClaims, src \in SSources, spoof \in Spoofs :
-             c = SMk(ep, sp, pr, k, cl, src, spoof) /\ SInScope(c)
+        \/ \E ep \in {"upstream", "authonly"}, sp \in Spellings, pr \in BOOLEAN, k \in SKinds, cl \in SClaims, src \in SSources, spoof \in Spoofs, nb \in Neighbours :
+             c = SMk2(ep, sp, pr, k, cl, src, spoof, nb) /\ SInScope(c)
 Next == UNCHANGED c
 
 IsStruct(d) == "struct" \in DOMAIN d
